@@ -541,3 +541,220 @@ Qed.
 Lemma stamp_first_fresh fs now r rest : fexists fs (stamp_name (wrap32 (now + 1)) r) = false ->
   stamp fs now (r :: rest) = Some (wrap32 (now + 1), r, rest).
 Proof. intros H. cbn [stamp]. rewrite H. reflexivity. Qed.
+
+(* ------------------------------------------------------------------ what "processed line" means *)
+Lemma defuse_length l : forall s, length (defuse s l) = length l.
+Proof.
+  induction l as [|c r IH]; intros s; cbn [defuse]; [reflexivity|].
+  destruct (c =? types_ansi.ESC_CHR); [cbn [length]; rewrite IH; reflexivity|].
+  destruct s; [|cbn [length]; rewrite IH; reflexivity].
+  destruct (memb c PATTERN_ANSI_CODE); [cbn [length]; rewrite IH; reflexivity|].
+  destruct (memb c PATTERN_ANSI_MOVECMD); cbn [length]; rewrite IH; reflexivity.
+Qed.
+
+(* only command bytes of cursor-movement sequences change, and they become 's' *)
+Lemma defuse_pointwise l : forall s,
+  Forall2 (fun a b => b = a \/ (memb a PATTERN_ANSI_MOVECMD = true /\ b = 115)) l (defuse s l).
+Proof.
+  induction l as [|c r IH]; intros s; cbn [defuse]; [constructor|].
+  destruct (c =? types_ansi.ESC_CHR); [constructor; [left; reflexivity|apply IH]|].
+  destruct s; [|constructor; [left; reflexivity|apply IH]].
+  destruct (memb c PATTERN_ANSI_CODE); [constructor; [left; reflexivity|apply IH]|].
+  destruct (memb c PATTERN_ANSI_MOVECMD) eqn:E; constructor; try apply IH; [right; split; [exact E|reflexivity]|left; reflexivity].
+Qed.
+
+(* the output contains nothing left to defuse: it is a fixed point *)
+Lemma defuse_idem l : forall s, defuse s (defuse s l) = defuse s l.
+Proof.
+  induction l as [|c r IH]; intros s; cbn [defuse]; [reflexivity|].
+  destruct (c =? types_ansi.ESC_CHR) eqn:E1.
+  - cbn [defuse]. rewrite E1, IH. reflexivity.
+  - destruct s.
+    + destruct (memb c PATTERN_ANSI_CODE) eqn:E2.
+      * cbn [defuse]. rewrite E1, E2, IH. reflexivity.
+      * destruct (memb c PATTERN_ANSI_MOVECMD) eqn:E3.
+        -- cbn [defuse]. change (115 =? types_ansi.ESC_CHR) with false. change (memb 115 PATTERN_ANSI_CODE) with false.
+           change (memb 115 PATTERN_ANSI_MOVECMD) with false. cbv iota. rewrite IH. reflexivity.
+        -- cbn [defuse]. rewrite E1, E2, E3, IH. reflexivity.
+    + cbn [defuse]. rewrite E1, IH. reflexivity.
+Qed.
+
+Lemma rtrim_sp_spec l : exists k, l = rtrim_sp l ++ repeat 32 k /\ (rtrim_sp l = [] \/ last (rtrim_sp l) 0 <> 32).
+Proof.
+  induction l as [|c r (k & E & L)]; [exists O; split; [reflexivity|left; reflexivity]|].
+  cbn [rtrim_sp]. destruct (rtrim_sp r) as [|x r'] eqn:R.
+  - destruct (Z.eqb_spec c 32) as [->|Hc].
+    + exists (S k). split; [cbn [repeat app]; rewrite E at 1; reflexivity|left; reflexivity].
+    + exists k. split; [cbn [app]; rewrite E at 1; reflexivity|right; exact Hc].
+  - exists k. split; [cbn [app]; rewrite E at 1; reflexivity|].
+    right. destruct L as [L|L]; [discriminate|]. exact L.
+Qed.
+
+Lemma cprefix_nul_free l : Forall (fun c => c <> 0) (cprefix l).
+Proof.
+  induction l as [|c r IH]; cbn [cprefix]; [constructor|].
+  destruct (Z.eqb_spec c 0); [constructor|constructor; assumption].
+Qed.
+
+(* trim: the bytes before the first NUL, without the trailing blanks; no NUL, no trailing blank *)
+Lemma trim_spec l : exists k, cprefix l = trim l ++ repeat 32 k /\ (trim l = [] \/ last (trim l) 0 <> 32) /\ Forall (fun c => c <> 0) (trim l).
+Proof.
+  unfold trim. destruct (rtrim_sp_spec (cprefix l)) as (k & E & L). exists k. split; [exact E|]. split; [exact L|].
+  pose proof (cprefix_nul_free l) as N. rewrite E in N. apply Forall_app in N. apply N.
+Qed.
+
+(* the body: every line but an empty last one *)
+Lemma process_lines_last_empty ls : process_lines (ls ++ [[]]) = flat_map process_line ls.
+Proof.
+  induction ls as [|l r IH]; [reflexivity|].
+  cbn [app flat_map]. rewrite <- IH. cbn [process_lines].
+  destruct (r ++ [[]]) eqn:E; [destruct r; discriminate|reflexivity].
+Qed.
+
+Lemma process_lines_last_nonempty ls l : l <> [] -> process_lines (ls ++ [l]) = flat_map process_line (ls ++ [l]).
+Proof.
+  intros H. induction ls as [|x r IH].
+  - cbn. destruct l; [contradiction|]. rewrite app_nil_r. reflexivity.
+  - cbn [app flat_map]. rewrite <- IH. cbn [process_lines].
+    destruct (r ++ [l]) eqn:E; [destruct r; discriminate|reflexivity].
+Qed.
+
+(* ------------------------------------------------------------------ sequences of posts *)
+Lemma upd_length {A} n (x : A) l : length (upd n x l) = length l.
+Proof. revert n. induction l as [|a l IH]; intros [|n]; cbn; try reflexivity. rewrite IH. reflexivity. Qed.
+
+Lemma nth_upd_same {A} n (x d : A) l : (n < length l)%nat -> nth n (upd n x l) d = x.
+Proof. revert n. induction l as [|a l IH]; intros [|n] H; cbn in *; try lia; [reflexivity|]. apply IH. lia. Qed.
+
+Lemma nth_upd_other {A} n m (x d : A) l : n <> m -> nth m (upd n x l) d = nth m l d.
+Proof.
+  revert n m. induction l as [|a l IH]; intros [|n] [|m] H; cbn; try reflexivity; try congruence.
+  apply IH. congruence.
+Qed.
+
+Definition usr (st : state) (j : nat) : user := nth j (s_users st) dflt_user.
+Definition brd (st : state) (i : nat) : board := nth i (s_boards st) dflt_board.
+Definition dir_ok (b : board) : Prop := lenZ (b_dir b) mod 128 = 0.
+
+Fixpoint entries_for (i : nat) (qs : list req) (os : list outcome) : list Z :=
+  match qs, os with
+  | q :: qs', o :: os' => (if (Z.to_nat (q_board q) =? i)%nat then o_entry o else []) ++ entries_for i qs' os'
+  | _, _ => []
+  end.
+Fixpoint posts_by (j : nat) (qs : list req) : Z :=
+  match qs with
+  | [] => 0
+  | q :: qs' => (if (Z.to_nat (q_user q) =? j)%nat then 1 else 0) + posts_by j qs'
+  end.
+
+Lemma post_step st q st' o : req_ok st q = true -> post st q = Ok (st', o) ->
+  exists u' b',
+    post_on (allowed_by_role (q_user q) (usr st (Z.to_nat (q_user q))) (brd st (Z.to_nat (q_board q))))
+            (usr st (Z.to_nat (q_user q))) (brd st (Z.to_nat (q_board q))) q = Ok (u', b', o) /\
+    s_users st' = upd (Z.to_nat (q_user q)) u' (s_users st) /\
+    s_boards st' = upd (Z.to_nat (q_board q)) b' (s_boards st) /\
+    (Z.to_nat (q_user q) < length (s_users st))%nat /\ (Z.to_nat (q_board q) < length (s_boards st))%nat.
+Proof.
+  intros R H. unfold post in H. fold (usr st (Z.to_nat (q_user q))) in H. fold (brd st (Z.to_nat (q_board q))) in H.
+  destruct (post_on _ _ _ q) as [[[u' b'] o']| |] eqn:P; try discriminate.
+  inversion H; subst st' o'; clear H. exists u', b'. split; [reflexivity|]. cbn [s_users s_boards].
+  unfold req_ok, lenZ in R. rewrite !andb_true_iff in R. destruct R as (((R1 & R2) & R3) & R4).
+  repeat split; lia.
+Qed.
+
+Lemma req_ok_step st q st' o q2 : req_ok st q = true -> post st q = Ok (st', o) -> req_ok st' q2 = req_ok st q2.
+Proof.
+  intros R H. destruct (post_step _ _ _ _ R H) as (u' & b' & _ & EU & EB & _ & _).
+  unfold req_ok, lenZ. rewrite EU, EB, !upd_length. reflexivity.
+Qed.
+
+(* frame of one post at the level of the whole state *)
+Lemma post_frame st q st' o : req_ok st q = true -> post st q = Ok (st', o) ->
+  (forall i, i <> Z.to_nat (q_board q) -> brd st' i = brd st i) /\
+  (forall j, j <> Z.to_nat (q_user q) -> usr st' j = usr st j) /\
+  (forall i n c, lookup n (b_files (brd st i)) = Some c -> lookup n (b_files (brd st' i)) = Some c) /\
+  (forall i, dir_ok (brd st i) ->
+     b_dir (brd st' i) = b_dir (brd st i) ++ (if (Z.to_nat (q_board q) =? i)%nat then o_entry o else []) /\ dir_ok (brd st' i)) /\
+  (forall j, u_numposts (usr st' j) = (u_numposts (usr st j) + (if (Z.to_nat (q_user q) =? j)%nat then 1 else 0)) mod 4294967296
+             \/ (j <> Z.to_nat (q_user q) /\ u_numposts (usr st' j) = u_numposts (usr st j))).
+Proof.
+  intros R H. destruct (post_step _ _ _ _ R H) as (u' & b' & P & EU & EB & LU & LB).
+  set (ui := Z.to_nat (q_user q)) in *. set (bi := Z.to_nat (q_board q)) in *.
+  assert (Bsame : brd st' bi = b') by (unfold brd; rewrite EB; apply nth_upd_same; exact LB).
+  assert (Usame : usr st' ui = u') by (unfold usr; rewrite EU; apply nth_upd_same; exact LU).
+  assert (Bother : forall i, i <> bi -> brd st' i = brd st i) by (intros i Hi; unfold brd; rewrite EB; apply nth_upd_other; congruence).
+  assert (Uother : forall j, j <> ui -> usr st' j = usr st j) by (intros j Hj; unfold usr; rewrite EU; apply nth_upd_other; congruence).
+  split; [exact Bother|]. split; [exact Uother|].
+  destruct (post_on_inv _ _ _ _ _ _ _ P) as (t1 & r1 & t2 & r2 & F).
+  split; [|split].
+  - intros i n c L. destruct (Nat.eq_dec i bi) as [->|Hi]; [|rewrite Bother by exact Hi; exact L].
+    rewrite Bsame. rewrite (pf_files _ _ _ _ _ _ _ _ _ _ _ F).
+    destruct (bytes_eqb (stamp_name t2 r2) n) eqn:E; [|exact L].
+    apply bytes_eqb_eq in E. subst n. pose proof (pf_fresh2 _ _ _ _ _ _ _ _ _ _ _ F) as Fr.
+    apply fexists_false in Fr. fold bi in Fr. rewrite Fr in L. discriminate.
+  - intros i D. destruct (Nat.eqb_spec bi i) as [<-|Hi].
+    + rewrite Bsame. destruct (index_grows _ _ _ _ _ _ _ P) as (_ & _ & _ & G). destruct (G D) as (G1 & G2).
+      split; [exact G1|]. unfold dir_ok in *. rewrite G2. lia.
+    + rewrite Bother by congruence. rewrite app_nil_r. split; [reflexivity|exact D].
+  - intros j. destruct (Nat.eqb_spec ui j) as [<-|Hj].
+    + left. rewrite Usame. destruct (numposts_after _ _ _ _ _ _ _ P) as (N & _). exact N.
+    + right. split; [congruence|]. rewrite Uother by congruence. reflexivity.
+Qed.
+
+Lemma sequence qs : forall st st' os,
+  forallb (req_ok st) qs = true -> post_seq st qs = Ok (st', os) ->
+  length os = length qs /\
+  length (s_users st') = length (s_users st) /\ length (s_boards st') = length (s_boards st) /\
+  (forall i, dir_ok (brd st i) -> b_dir (brd st' i) = b_dir (brd st i) ++ entries_for i qs os /\ dir_ok (brd st' i)) /\
+  (forall j, u_numposts (usr st' j) = u_numposts (usr st j) /\ posts_by j qs = 0
+             \/ u_numposts (usr st' j) = (u_numposts (usr st j) + posts_by j qs) mod 4294967296) /\
+  (forall i n c, lookup n (b_files (brd st i)) = Some c -> lookup n (b_files (brd st' i)) = Some c).
+Proof.
+  induction qs as [|q qs IH]; intros st st' os R H.
+  - cbn [post_seq] in H. inversion H; subst. cbn [entries_for posts_by length].
+    split; [reflexivity|]. split; [reflexivity|]. split; [reflexivity|].
+    split; [intros i D; rewrite app_nil_r; split; [reflexivity|exact D]|].
+    split; [intros j; left; split; reflexivity|]. intros i n c L; exact L.
+  - cbn [forallb] in R. apply andb_true_iff in R. destruct R as [Rq Rs].
+    cbn [post_seq] in H. destruct (post st q) as [[st1 o]| |] eqn:P; try discriminate.
+    destruct (post_seq st1 qs) as [[st2 os']| |] eqn:PS; try discriminate.
+    inversion H; subst st' os; clear H.
+    assert (Rs' : forallb (req_ok st1) qs = true).
+    { rewrite forallb_forall in *. intros q2 Hq2. rewrite (req_ok_step _ _ _ _ q2 Rq P). apply Rs. exact Hq2. }
+    destruct (IH _ _ _ Rs' PS) as (L & LU & LB & D & N & K).
+    destruct (post_frame _ _ _ _ Rq P) as (_ & _ & K1 & D1 & N1).
+    destruct (post_step _ _ _ _ Rq P) as (u' & b' & _ & EU & EB & _ & _).
+    split; [cbn [length]; rewrite L; reflexivity|].
+    split; [rewrite LU, EU, upd_length; reflexivity|].
+    split; [rewrite LB, EB, upd_length; reflexivity|].
+    split; [|split].
+    + intros i Di. destruct (D1 i Di) as (E1 & Di1). destruct (D i Di1) as (E2 & Di2).
+      split; [|exact Di2]. rewrite E2, E1. cbn [entries_for]. rewrite app_assoc. reflexivity.
+    + intros j. cbn [posts_by]. destruct (N j) as [(E2 & Z2)|E2]; destruct (N1 j) as [E1|(Hj & E1)].
+      * right. rewrite E2, E1, Z2, Z.add_0_r. reflexivity.
+      * destruct (Nat.eqb_spec (Z.to_nat (q_user q)) j); [congruence|].
+        left. split; [rewrite E2, E1; reflexivity|rewrite Z2; reflexivity].
+      * right. rewrite E2, E1. rewrite Zplus_mod_idemp_l. f_equal. lia.
+      * destruct (Nat.eqb_spec (Z.to_nat (q_user q)) j); [congruence|].
+        right. rewrite E2, E1. reflexivity.
+    + intros i n c Lk. apply K. apply K1. exact Lk.
+Qed.
+
+(* an article stays retrievable, with the same bytes, whatever is posted afterwards to the same or to other boards *)
+Lemma sequence_retrievable st q st1 o qs st2 os : in_range q ->
+  req_ok st q = true -> post st q = Ok (st1, o) ->
+  forallb (req_ok st1) qs = true -> post_seq st1 qs = Ok (st2, os) ->
+  exists content,
+    fetch (brd st1 (Z.to_nat (q_board q))) (o_aid o) = Ok (Some content) /\
+    fetch (brd st2 (Z.to_nat (q_board q))) (o_aid o) = Ok (Some content).
+Proof.
+  intros IR R P Rs PS.
+  destruct (post_step _ _ _ _ R P) as (u' & b' & Pon & EU & EB & LU & LB).
+  assert (Bsame : brd st1 (Z.to_nat (q_board q)) = b') by (unfold brd; rewrite EB; apply nth_upd_same; exact LB).
+  pose proof (fetch_after _ _ _ _ _ _ _ IR Pon) as Fa.
+  eexists. rewrite Bsame. split; [exact Fa|].
+  destruct (sequence _ _ _ _ Rs PS) as (_ & _ & _ & _ & _ & K).
+  unfold fetch in *. destruct (articleid_to_fn (o_aid o)) as [fn| |]; try discriminate.
+  destruct ((nth 0 fn 0 =? 76) || (nth 0 fn 0 =? 0)); [discriminate|].
+  inversion Fa as [Fa']. rewrite <- Bsame in Fa'. rewrite (K _ _ _ Fa'). reflexivity.
+Qed.
